@@ -19,7 +19,7 @@ theorem msi_payload_preserved (d : Node) (hd : DocOk d) (pkcs ex : Bytes) (s₁ 
 
 /-- the same for the signer module (either flag, any digest algorithm) -/
 theorem msi_sign_payload_preserved (H : Nat → Bytes → Bytes) (mk : Nat → Bytes → Bytes) (d : Node) (hd : DocOk d)
-    (hsafe : tarSafeB [] d.kids = true) (alg : Nat) (noExt : Bool) (s₁ s₂ : Nat) :
+    (hsafe : tarRootOkB d.kids = true) (alg : Nat) (noExt : Bool) (s₁ s₂ : Nat) :
     ∃ d₁, signMSI H mk alg noExt d s₁ s₂ = .ok d₁ ∧ payload d₁.kids = payload d.kids ∧ d₁.meta = d.meta ∧
       ∀ d', Reread d₁ d' → PayloadSame d d' :=
   ⟨_, sign_eq H mk d hd hsafe alg noExt s₁ s₂, payload_inserted d.kids _ _ s₁ s₂, rfl,
@@ -29,42 +29,21 @@ example : DocOk C05.sampleRoot := ⟨okAtB_sound true _ (by decide), rfl, by dec
 example : (payload C05.sampleRoot.kids).length = 4 := by decide
 
 set_option maxRecDepth 100000 in
-/-- **msi_fold_alias_deleted.** FINDING (see `Relic.Props.C01.msi_fold_alias_breaks_verify`): outside the class – a
-    payload stream whose name folds to a signature name – signing deletes a payload stream. -/
+/-- **msi_fold_alias_deleted.** FINDING Fmsi-fold (repaired; see `Relic.Props.C01.msi_fold_alias_breaks_verify`), a
+    statement about the ORIGINAL code: outside the class – a payload stream whose name folds to a signature name –
+    signing deleted a payload stream.  The repaired `InsertMSISignature` refuses. -/
 theorem msi_fold_alias_deleted :
     noAliasB C01.aliasRoot.kids = false ∧ (payload C01.aliasRoot.kids).length = 2 ∧
-    ∃ d, insertMSISignature C01.aliasRoot [1] [] 0 0 = .ok d ∧ (payload d.kids).length = 1 :=
-  ⟨by decide, by decide, _, rfl, by decide⟩
+    (∃ d, insertMSISignatureOrig C01.aliasRoot [1] [] 0 0 = .ok d ∧ (payload d.kids).length = 1) ∧
+    insertMSISignature C01.aliasRoot [1] [] 0 0 = .err "alias" :=
+  ⟨by decide, by decide, ⟨_, rfl, by decide⟩, by rfl⟩
 
-theorem addFile_ok (name : List Nat) (c : Bytes) (s : Nat) (ks kept : List Node) (hl : ¬ (name.length + 1 > 32))
-    (h : deleteFile name ks = .ok kept) :
-    addFile name c s ks = .ok (kept ++ [Node.mk (newMeta name c.length s) c []]) := by
-  unfold addFile; rw [h]; simp only [Res.bind_ok', hl, if_false, Res.pure_eq]
-
-theorem addFile_err (name : List Nat) (c : Bytes) (s : Nat) (ks : List Node) (e : String)
-    (h : deleteFile name ks = .err e) : addFile name c s ks = .err e := by
-  unfold addFile; rw [h]; rfl
-
-/-- a failing `DeleteFile` names its cause -/
-theorem deleteFile_cases (t : List Nat) (ks : List Node) :
-    deleteFile t ks = .ok (ks.filter (fun n => !equalFold (goName n.meta) t)) ∨
-    (deleteFile t ks = .err "storage" ∧ ∃ n ∈ ks, equalFold (goName n.meta) t = true ∧ n.meta.typ ≠ typStream) := by
-  rw [deleteFile_eq]
-  cases ha : (ks.all fun n => !equalFold (goName n.meta) t || n.meta.typ == typStream) with
-  | true => left; rfl
-  | false =>
-    right
-    rw [List.all_eq_false] at ha
-    obtain ⟨n, hn, hq⟩ := ha
-    simp only [Bool.or_eq_true, Bool.not_eq_true', beq_iff_eq, not_or] at hq
-    exact ⟨rfl, n, hn, by simpa using hq.1, hq.2⟩
-
-/-- **msi_insert_fails_only_on_storage.** On *any* document `InsertMSISignature` either succeeds or fails with the
-    storage error, and it fails only if an entry of the root storage whose name folds to one of the two signature names
-    is not a stream.  (It returns before `Close`, so the directory on disk is not rewritten.) -/
-theorem msi_insert_fails_only_on_storage (d : Node) (pkcs ex : Bytes) (s₁ s₂ : Nat) :
-    (∃ d₁, insertMSISignature d pkcs ex s₁ s₂ = .ok d₁) ∨
-    (insertMSISignature d pkcs ex s₁ s₂ = .err "storage" ∧
+/-- the body of `InsertMSISignature` after the name test: on *any* document it either succeeds or fails with the storage
+    error, and it fails only if an entry of the root storage whose name folds to one of the two signature names is not
+    a stream -/
+theorem insertOrig_fails_only_on_storage (d : Node) (pkcs ex : Bytes) (s₁ s₂ : Nat) :
+    (∃ d₁, insertMSISignatureOrig d pkcs ex s₁ s₂ = .ok d₁) ∨
+    (insertMSISignatureOrig d pkcs ex s₁ s₂ = .err "storage" ∧
       ∃ n ∈ d.kids, (equalFold (goName n.meta) sigName = true ∨ equalFold (goName n.meta) sigExName = true) ∧
         n.meta.typ ≠ typStream) := by
   have hl1 : ¬ (sigExName.length + 1 > 32) := by decide
@@ -100,18 +79,32 @@ theorem msi_insert_fails_only_on_storage (d : Node) (pkcs ex : Bytes) (s₁ s₂
       by_cases he : ex.length > 0
       · exact ⟨by simp only [he, if_true]; exact addFile_err _ _ _ _ _ h, hw⟩
       · exact ⟨by simp only [he, if_false]; exact h, hw⟩
-  have hdef : insertMSISignature d pkcs ex s₁ s₂ =
-      ((if ex.length > 0 then addFile sigExName ex s₁ d.kids else deleteFile sigExName d.kids) >>= fun k1 =>
-        addFile sigName pkcs s₂ k1 >>= fun k2 => pure (.mk d.meta d.content k2)) := by
-    unfold insertMSISignature
-    by_cases he : ex.length > 0 <;> simp only [he, if_true, if_false] <;> rfl
-  rw [hdef]
+  rw [insertOrig_def]
   rcases first with ⟨k1, h1, hk1⟩ | ⟨h1, n, hn, hf, ht⟩
   · rw [h1]
     rcases second k1 hk1 with ⟨k2, h2⟩ | ⟨h2, n, hn, hf, ht⟩
     · left; simp only [Res.bind_ok', h2]; exact ⟨_, rfl⟩
     · right; simp only [Res.bind_ok', h2]; exact ⟨rfl, n, hn, Or.inl hf, ht⟩
   · right; rw [h1]; exact ⟨rfl, n, hn, Or.inr hf, ht⟩
+
+/-- **msi_insert_fails_only_on_storage.** On *any* document `InsertMSISignature` either succeeds, or refuses a mere
+    case variant of a signature name (alias error, exactly when there is one), or fails with the storage error, and
+    that only if an entry of the root storage carrying a signature name is not a stream.  (It returns before `Close`, so
+    the directory on disk is not rewritten.) -/
+theorem msi_insert_fails_only_on_storage (d : Node) (pkcs ex : Bytes) (s₁ s₂ : Nat) :
+    (∃ d₁, insertMSISignature d pkcs ex s₁ s₂ = .ok d₁) ∨
+    (insertMSISignature d pkcs ex s₁ s₂ = .err "alias" ∧ noAliasB d.kids = false) ∨
+    (insertMSISignature d pkcs ex s₁ s₂ = .err "storage" ∧
+      ∃ n ∈ d.kids, (equalFold (goName n.meta) sigName = true ∨ equalFold (goName n.meta) sigExName = true) ∧
+        n.meta.typ ≠ typStream) := by
+  unfold insertMSISignature
+  cases ha : noAliasB d.kids with
+  | false => right; left; simp
+  | true =>
+    simp only [Bool.not_true, Bool.false_eq_true, if_false]
+    rcases insertOrig_fails_only_on_storage d pkcs ex s₁ s₂ with h | h
+    · left; exact h
+    · right; right; exact h
 
 example : insertMSISignature C01.sigStorageRoot [1] [2] 0 0 = .err "storage" := by rfl
 
